@@ -19,7 +19,9 @@ Proof. exact roundtrip_exact. Qed.
 Print Assumptions C09_roundtrip_exact.
 
 (* what survives floating point: for ANY rounding R of relative error <= 2^-52 per step, and any lg / pw, every Integer
-   (uniform prior, bounds within +-2^47) and every Categorical (any transform) coordinate comes back EXACTLY *)
+   (uniform prior; identity transform: ANY magnitude - no arithmetic is involved, which is why spaces whose warped
+   columns are all integral are exact for every int64 value; normalize: bounds within +-2^47) and every Categorical
+   (identity / label / onehot: any categories; normalize: at most 2^47 of them) coordinate comes back EXACTLY *)
 Theorem C09_int_cat_robust : forall R, admissible R -> forall lg pw sp row j d x,
   wf_space sp = true -> in_space sp row = true ->
   nth_error sp j = Some d -> nth_error row j = Some x -> robust_dim d = true ->
@@ -188,6 +190,23 @@ Example C09_example :
   /\ tdims ex_space = 12%nat
   /\ ok_C09 ex_space (tbounds_space Qred lg1 ex_space) (repeat (0, 0) 10) ex_X (transform Qred lg1 ex_space ex_X)
        (inverse Qred lg1 pw1 ex_space (transform Qred lg1 ex_space ex_X)) = 0%Z.
+Proof. vm_compute. repeat split; reflexivity. Qed.
+
+(* integral warped columns only: exact for integers far above 2^53 (2^53+1, 2^62-1, -2^62) and robust for EVERY rounding *)
+Definition big_space : space :=
+  [ DInt (-4611686018427387904) 4611686018427387903 PUniform TIdentity;
+    DCat KInt [9007199254740993; -4611686018427387904; 4611686018427387903; 7] CIdentity;
+    DCat KInt [1152921504606846977; 1152921504606846976; -3] CLabel; DCat KTok [0; 1; 2] COnehot ].
+Definition big_X : list (list Q) :=
+  [ [9007199254740993; 9007199254740993; 1152921504606846977; 0];
+    [4611686018427387903; -4611686018427387904; 1152921504606846976; 2];
+    [-4611686018427387904; 4611686018427387903; -3; 1] ].
+Example C09_big_integers :
+  wf_space big_space = true /\ forallb robust_dim big_space = true /\ forallb (in_space big_space) big_X = true
+  /\ transform R_up lg1 big_space big_X
+     = [ [9007199254740993; 9007199254740993; 2; 1; 0; 0]; [4611686018427387903; -4611686018427387904; 1; 0; 0; 1];
+         [-4611686018427387904; 4611686018427387903; 0; 0; 1; 0] ]
+  /\ inverse R_up lg1 pw1 big_space (transform R_up lg1 big_space big_X) = big_X.
 Proof. vm_compute. repeat split; reflexivity. Qed.
 
 (* a switch sequence as the optimizer performs it: by type, one dimension through the Dimension API, then normalize_dimensions *)
